@@ -235,6 +235,37 @@ def wait(filtered, pattern):
         sx.reach("wait-hit")
 
 
+def wait_threads(filtered, nframes, prior):
+    """frames delivered by a second thread while the caller enters / sits in wait(): every schedule at lock
+    granularity.  The caller gets a matching entry that arrived after it started waiting, or None."""
+    cons = emcy().EmcyConsumer()
+    if prior:
+        cons.on_emcy(0x81, _frame("old"), 1)
+    want = sx.fresh_int("want", 0, 0xFFFF)
+    frames = [_frame("f%d" % i) for i in range(nframes)]
+    sched = sx.scheduler()
+
+    def feeder():
+        for i, f in enumerate(frames):
+            cons.on_emcy(0x81, f, 10 + i)
+    sched.spawn(feeder, "feeder")
+    n_before = len(cons.log)
+    res = cons.wait(want if filtered else None, timeout=1)
+    sched.join()
+    sx.observe("res", None if res is None else res.code)
+    mine = cons.log[n_before:] if not prior else cons.log[1:]
+    if res is not None:
+        sx.prove(any(res is e for e in cons.log[(1 if prior else 0):]), "wait returned an entry that did not arrive "
+                 "during the wait", "C16/threads/stale-entry")
+        if filtered:
+            sx.prove(res.code == want, "wait returned a non-matching entry", "C16/threads/filter")
+        sx.reach("threads-entry")
+    else:
+        sx.reach("threads-none")
+    sx.prove(len(cons.log) == nframes + (1 if prior else 0), "log complete after the feeder finished",
+             "C16/threads/log")
+
+
 def jobs(tier):
     out = []
     for nlog in range(0, 3):
@@ -249,6 +280,10 @@ def jobs(tier):
         out.append(dict(func="producer", params=dict(n=n)))
     out.append(dict(func="description", params={}))
     pats = [(), ("-",), ("m",), ("o", "m"), ("o", "-"), ("o", "o", "m"), ("m", "o")]
+    for filtered in (False, True):
+        for nf in (1, 2):
+            for prior in (0, 1):
+                out.append(dict(func="wait_threads", params=dict(filtered=filtered, nframes=nf, prior=prior)))
     for filtered in (False, True):
         for p in pats:
             out.append(dict(func="wait", params=dict(filtered=filtered, pattern=list(p))))
@@ -271,6 +306,6 @@ META = dict(
     assumptions=["fake clock: a wake-up without delivery advances time by the time-out"],
     stubs=["struct", "threading.Condition", "time", "bytes"],
     required_reach=["step", "reset-cleared", "history", "history-reset", "producer", "producer-reset", "desc", "wait-timeout",
-                    "wait-hit"],
+                    "wait-hit", "threads-entry", "threads-none"],
     limits=dict(quick=dict(), thorough=dict()),
 )
